@@ -10,28 +10,12 @@ namespace C06
 open AL
 
 /-- what the composed ante chain of the repository checks for a transaction that contains a
-top-level operation of module `k`, when it admits it in check mode -/
-theorem ante_check_runs_fee_decorator (k : RegKind) (s s' : State) (tx : Tx) (hk : tx.hasKind k = true)
-    (h : ante Facts.anteOrder .check s tx = .ok s') :
-    checkFees (s.reg k) k tx = .ok () ∧ checkPayerFunds s (s.reg k) tx = .ok () ∧ checkMaxSlots (s.reg k) k tx = .ok () := by
-  have horder : Facts.anteOrder = ["SetUpContext", "ExtensionOptions", "ValidateBasic", "TxTimeoutHeight", "ValidateMemo",
-    "ConsumeGasForTxSize", "CorrectWrkChainFee", "CorrectBeaconFee", "CheckLockedUnd", "DeductFee", "SetPubKey",
-    "ValidateSigCount", "SigGasConsume", "SigVerification", "IncrementSequence", "RedundantRelay"] := by decide
-  rw [horder] at h
-  simp only [ante, List.foldlM_cons, anteStepM, anteStep, bind_eq_ok, pure_eq_ok, stepValidateBasic, Except.ok.injEq,
-    exists_eq_left'] at h
-  obtain ⟨s3, ⟨_, _, _, _, rfl⟩, s7, h7, s8, h8, _⟩ := h
-  have e7 := feeDecorator_id .wrk .check _ _ tx h7
-  subst e7
-  cases k with
-  | wrk =>
-    simp only [feeDecorator, hk, Bool.not_true, Bool.false_eq_true, if_false, bind_eq_ok, pure_eq_ok, if_true] at h7
-    obtain ⟨u1, h1, u2, h2, u3, h3, _⟩ := h7
-    exact ⟨h1, h2, h3⟩
-  | bcn =>
-    simp only [feeDecorator, hk, Bool.not_true, Bool.false_eq_true, if_false, bind_eq_ok, pure_eq_ok, if_true] at h8
-    obtain ⟨u1, h1, u2, h2, u3, h3, _⟩ := h8
-    exact ⟨h1, h2, h3⟩
+top-level operation of module `k`, when it admits it in check mode — first check or mempool re-check -/
+theorem ante_check_runs_fee_decorator (k : RegKind) (mode : Mode) (hmode : mode ≠ .deliver) (s s' : State) (tx : Tx)
+    (hk : tx.hasKind k = true) (h : ante Facts.anteOrder mode s tx = .ok s') :
+    checkFees (s.reg k) k tx = .ok () ∧ checkPayerFunds s (s.reg k) tx = .ok () ∧ checkMaxSlots (s.reg k) k tx = .ok () :=
+  have r := ante_runs_fee_decorator k mode s s' tx hk h
+  ⟨r.1 hmode, r.2.1, r.2.2⟩
 
 /-- **Exact fee.**  A transaction with a top-level operation of module `k` is admitted by CheckTx only if
 the amount it offers in that module's fee denomination equals exactly the sum, over its top-level
@@ -49,7 +33,24 @@ theorem c06_admitted_pays_exact_sum (k : RegKind) (s : State) (tx : Tx) (hk : tx
     · split at h
       · rename_i e _; cases e <;> simp [Outcome.ofErr] at h
       · rename_i s1 h1
-        exact (checkFees_exact (s.reg k) k hbuy hp tx hm (ante_check_runs_fee_decorator k s s1 tx hk h1).1).1
+        exact (checkFees_exact (s.reg k) k hbuy hp tx hm (ante_check_runs_fee_decorator k .check (by decide) s s1 tx hk h1).1).1
+
+/-- **… also when the mempool is re-validated.**  After every commit CometBFT runs CheckTx of type Recheck on the
+pending transactions; the fee decorators run then too, against the parameters in force *now*: a pending transaction
+whose fee no longer equals the current sum (governance changed a fee in between) is dropped. -/
+theorem c06_recheck_admitted_pays_exact_sum (k : RegKind) (s : State) (tx : Tx) (hk : tx.hasKind k = true)
+    (hbuy : 1 ≤ (s.reg k).params.feeBuy) (hp : (s.reg k).params.U64) (hm : ∀ m ∈ tx.msgs, m.U64)
+    (h : (recheckTx Facts.anteOrder s tx).2.outcome = .ok) :
+    Coins.amountOf tx.fee (s.reg k).params.denom = feeSum (s.reg k).params k tx.msgs := by
+  unfold recheckTx at h
+  split at h
+  · simp at h
+  · split at h
+    · rename_i e _; cases e <;> simp [Outcome.ofErr] at h
+    · split at h
+      · rename_i e _; cases e <;> simp [Outcome.ofErr] at h
+      · rename_i s1 h1
+        exact (checkFees_exact (s.reg k) k hbuy hp tx hm (ante_check_runs_fee_decorator k .recheck (by decide) s s1 tx hk h1).1).1
 
 /-- **Affordability.**  … and only if its fee payer can cover that amount from liquid plus locked funds
 (total and spendable balances, each together with the locked eFUND). -/
@@ -68,7 +69,7 @@ theorem c06_payer_can_cover (k : RegKind) (s : State) (tx : Tx) (hk : tx.hasKind
     · split at h
       · rename_i e _; cases e <;> simp [Outcome.ofErr] at h
       · rename_i s1 h1
-        have h2 := (ante_check_runs_fee_decorator k s s1 tx hk h1).2.1
+        have h2 := (ante_check_runs_fee_decorator k .check (by decide) s s1 tx hk h1).2.1
         simp only [checkPayerFunds, bind_eq_ok, require_eq_ok, Bool.not_eq_true'] at h2
         obtain ⟨payer, hp, _, hacc, _, _, _, _, _, c1, c2⟩ := h2
         refine ⟨payer, ?_, hacc, c1, c2⟩
